@@ -472,7 +472,10 @@ def cooperate(w, duration, hold=90, asn=None, caps='default', watch=None, close_
                     prior = [it for it in items if it[0] == 'frame']
                     po = [it for it in prior if it[1] == 1]
                     aw = [f for f in _wire.frames_of_writes(t.written) if f[1] == 1]
-                    if po and aw:
+                    # the peer's earlier OPEN counts only if the agent confirmed it with a KEEPALIVE: one it ignored or is
+                    # still waiting for (OpenSent) is followed by a valid OPEN, as a peer that behaves would send
+                    confirmed = any(f[1] == 4 for f in _wire.frames_of_writes(t.written))
+                    if po and aw and confirmed:
                         o_peer, o_me = _wire.parse_open(po[0][2]), _wire.parse_open(aw[0][2])
                         if o_peer and o_me:
                             st['open'] = True
